@@ -54,6 +54,12 @@ def rootsFor (e : RegExpect) (fmt : Cbor) : Except Err (List Root) :=
       | some f => .ok (((e.rootsByFmt.lookup f).getD []).map Root.pem)
       | none => .ok []
 
+/-- `decoded_credential_public_key.alg in supported_pub_key_algs` -/
+def algAllowed (alg : Cbor) (allowed : List Int) : Bool :=
+  match alg.asInt? with
+  | some i => allowed.contains i
+  | none => false
+
 def knownFormats : List String :=
   ["none", "fido-u2f", "packed", "tpm", "apple", "android-safetynet", "android-key"]
 
@@ -84,15 +90,12 @@ def verifyReg (c : RegCred) (e : RegExpect) : M VerifiedReg := do
   reject (ad.rpIdHash != rpHash) (regErr "reg.rpid-hash")
   reject (regUpRejects e.requireUP ad.flags.up) (regErr "reg.up")
   reject (regUvRejects e.requireUV ad.flags.uv) (regErr "reg.uv")
-  let att ← match ad.attested with
-    | some a => pure a
-    | none => throw (regErr "reg.no-attested-data")
+  let att ← liftE (someOr ad.attested (regErr "reg.no-attested-data"))
   reject att.credentialId.isEmpty (regErr "reg.credid-empty")
   reject att.publicKey.isEmpty (regErr "reg.key-empty")
   reject att.aaguid.isEmpty (regErr "reg.aaguid-empty")
   let key ← liftE (decodeCose att.publicKey)
-  reject (!(match key.alg.asInt? with | some i => e.supportedAlgs.contains i | none => false))
-    (regErr "reg.alg-not-allowed")
+  reject (!algAllowed key.alg e.supportedAlgs) (regErr "reg.alg-not-allowed")
   let roots ← liftE (rootsFor e ao.fmt)
   verifyFormat ao.fmt ao att c.clientDataJSON roots
   let bf ← liftE (parseBackupFlags ad.flags)
